@@ -4,12 +4,15 @@ import (
 	"fmt"
 	"go/ast"
 	"go/token"
+	"go/types"
 	"sort"
 	"strings"
 
 	"bebopverif/internal/core"
 	"bebopverif/internal/load"
 	"bebopverif/internal/wire"
+
+	"golang.org/x/tools/go/cfg"
 )
 
 func init() { register("C16", checkC16) }
@@ -21,7 +24,7 @@ type counts struct {
 }
 
 func single(n int) counts { return counts{set: map[int]bool{n: true}} }
-func none() counts       { return counts{set: map[int]bool{}} }
+func none() counts        { return counts{set: map[int]bool{}} }
 
 func (a counts) empty() bool { return len(a.set) == 0 && !a.unb }
 
@@ -90,10 +93,10 @@ func (a counts) covers(b counts) bool {
 // from the tokenReader along its non-error paths.
 type arityEngine struct {
 	lastExpect map[string]bool
-	p       *load.Prog
-	summary map[string]counts
-	inProg  map[string]bool
-	unknown []string
+	p          *load.Prog
+	summary    map[string]counts
+	inProg     map[string]bool
+	unknown    []string
 }
 
 // trivia helpers consume only optional newlines/comments: neutral for both sides.
@@ -554,9 +557,316 @@ func checkC16(c *core.Ctx) {
 		})
 	}
 	c.Check("R4", "the formatter never assigns a token's text (scan complete)", "format.go", true, "")
+	lookaheadPutBack(c, p)
+	lineCommentTerminator(c, p)
+	tokensVerbatim(c, p, "R4d")
 	c.Count("formatter_next_calls", nNext)
 	c.Floor("formatter_next_calls", 20)
 	// ---- R5
 	src := srcOf(p, ff.Body)
 	c.Check("R5", "the readonly marker reaches formatStruct", p.Pos(ff.Pos()), strings.Contains(src, "readOnly = true") && strings.Contains(src, "formatStruct(tr, readOnly,"), "")
+}
+
+
+// lookaheadPutBack: R4c. When the formatter tests the kind of a token it took
+// by position (not the token the dispatch loop is switching on) it is looking
+// ahead: on the side where the token is NOT of the tested kind, every path
+// must write the token's text or put it back with UnNext() before another
+// token is taken or the function returns. Otherwise the token — a field, a
+// brace — silently disappears from the formatted schema.
+func lookaheadPutBack(c *core.Ctx, p *load.Prog) {
+	pkg := p.Bebop()
+	n := 0
+	mentionsConcrete := func(nd ast.Node) bool {
+		found := false
+		ast.Inspect(nd, func(m ast.Node) bool {
+			if sel, ok := m.(*ast.SelectorExpr); ok && sel.Sel.Name == "concrete" {
+				found = true
+			}
+			return !found
+		})
+		return found
+	}
+	isNext := func(call *ast.CallExpr) bool { return isMethodCall(call, "tr", "Next") }
+	isUnNext := func(call *ast.CallExpr) bool { return isMethodCall(call, "tr", "UnNext") }
+	for _, fd := range funcsOfFiles(p, pkg, "format.go") {
+		f := buildCFG(p, pkg, fd)
+		if f == nil {
+			continue
+		}
+		// dispatch loops: `for tr.Next() { … switch <tok>.kind { … } }`; an if that
+		// is a direct statement of such a loop body filters the dispatched token
+		dispatchIf := map[ast.Node]bool{}
+		ast.Inspect(fd.Body, func(m ast.Node) bool {
+			fs, ok := m.(*ast.ForStmt)
+			if !ok || fs.Cond == nil || !containsCall(fs.Cond, isNext) {
+				return true
+			}
+			hasSwitch := false
+			for _, st := range fs.Body.List {
+				if sw, ok := st.(*ast.SwitchStmt); ok && sw.Tag != nil && strings.HasSuffix(wire.Canon(sw.Tag), ".kind") {
+					hasSwitch = true
+				}
+			}
+			if hasSwitch {
+				for _, st := range fs.Body.List {
+					if ifs, ok := st.(*ast.IfStmt); ok {
+						dispatchIf[ifs.Cond] = true
+					}
+				}
+			}
+			return true
+		})
+		count := 0
+		for _, b := range f.g.Blocks {
+			cond := blockCond(b)
+			if cond == nil {
+				continue
+			}
+			// go/cfg keeps `a && b` as one condition: look for the kind test among
+			// the conjuncts (then the false edge is the miss side) or, for `!=`,
+			// among the disjuncts (the true edge is)
+			var be *ast.BinaryExpr
+			var flat func(e ast.Expr, op token.Token) []ast.Expr
+			flat = func(e ast.Expr, op token.Token) []ast.Expr {
+				if b, ok := ast.Unparen(e).(*ast.BinaryExpr); ok && b.Op == op {
+					return append(flat(b.X, op), flat(b.Y, op)...)
+				}
+				return []ast.Expr{ast.Unparen(e)}
+			}
+			isKindTest := func(e ast.Expr, op token.Token) *ast.BinaryExpr {
+				b, ok := e.(*ast.BinaryExpr)
+				if !ok || b.Op != op {
+					return nil
+				}
+				sel, ok := ast.Unparen(b.X).(*ast.SelectorExpr)
+				if !ok || sel.Sel.Name != "kind" || !strings.HasPrefix(wire.Canon(b.Y), "tokenKind") {
+					return nil
+				}
+				return b
+			}
+			for _, e := range flat(cond, token.LAND) {
+				if b := isKindTest(e, token.EQL); b != nil {
+					be = b
+				}
+			}
+			if be == nil {
+				for _, e := range flat(cond, token.LOR) {
+					if b := isKindTest(e, token.NEQ); b != nil {
+						be = b
+					}
+				}
+			}
+			if be == nil {
+				continue
+			}
+			skip := false
+			for c := range dispatchIf {
+				if c.Pos() <= cond.Pos() && cond.End() <= c.End() {
+					skip = true
+				}
+			}
+			if skip {
+				continue
+			}
+			// already written between the take and the test?
+			lastNext, written := -1, false
+			for i, nd := range b.Nodes[:len(b.Nodes)-1] {
+				if containsCall(nd, isNext) {
+					lastNext, written = i, false
+				} else if mentionsConcrete(nd) {
+					written = true
+				}
+			}
+			_ = lastNext
+			if written {
+				continue
+			}
+			miss := 1
+			if be.Op == token.NEQ {
+				miss = 0
+			}
+			count++
+			n++
+			ok2 := true
+			var badPath []string
+			why := ""
+			f.reach(b.Succs[miss], 0, func(nd ast.Node) bool {
+				if containsCall(nd, isUnNext) || mentionsConcrete(nd) {
+					return true
+				}
+				if containsCall(nd, isNext) {
+					ok2 = false
+					why = "the next token is taken at " + p.Pos(nd.Pos())
+					return true
+				}
+				return false
+			}, func(r *ast.ReturnStmt, path []*cfg.Block) {
+				ok2 = false
+				badPath = f.pathString(path)
+				why = "the function returns"
+			})
+			c.CheckPath("R4c", fmt.Sprintf("%s: lookahead on %s puts the token back when it is something else (#%d)", fd.Name.Name, wire.Canon(be.Y), count), p.Pos(cond.Pos()), ok2,
+				fmt.Sprintf("when the token is not %s, %s before its text is written or tr.UnNext() is called: the token is dropped from the output", wire.Canon(be.Y), why), badPath)
+		}
+	}
+	c.Count("formatter_lookaheads", n)
+	c.Floor("formatter_lookaheads", 3)
+}
+
+
+// lineCommentTerminator: R6. The formatter writes a line comment as the
+// token's text and nothing else; whatever follows lands on the same line and
+// becomes part of the comment unless that text ends in the line break the
+// tokenizer consumed. Either lineCommentToken keeps everything ReadBytes('\n')
+// returned (the variable is never re-sliced or reassigned and is appended
+// whole), or every formatter site that writes a line comment adds the break.
+func lineCommentTerminator(c *core.Ctx, p *load.Prog) {
+	pkg := p.Bebop()
+	info := pkg.TypesInfo
+	fd := p.FuncDecl(pkg, "lineCommentToken")
+	if fd == nil {
+		c.Undecide("lineCommentToken not found")
+		return
+	}
+	var lineVar types.Object
+	ast.Inspect(fd.Body, func(n ast.Node) bool {
+		if as, ok := n.(*ast.AssignStmt); ok && len(as.Rhs) == 1 && len(as.Lhs) == 2 {
+			if call, ok := as.Rhs[0].(*ast.CallExpr); ok {
+				if sel, ok := call.Fun.(*ast.SelectorExpr); ok && (sel.Sel.Name == "ReadBytes" || sel.Sel.Name == "ReadString" || sel.Sel.Name == "ReadSlice") && len(call.Args) == 1 {
+					if v, ok := constInt(info, call.Args[0]); ok && v == '\n' {
+						if id, ok := as.Lhs[0].(*ast.Ident); ok {
+							lineVar = info.ObjectOf(id)
+						}
+					}
+				}
+			}
+		}
+		return true
+	})
+	keeps := lineVar != nil
+	why := "the rest of the line is not read up to and including '\\n' by a bufio delimiter read"
+	appended := false
+	if lineVar != nil {
+		defs := 0
+		ast.Inspect(fd.Body, func(n ast.Node) bool {
+			switch x := n.(type) {
+			case *ast.AssignStmt:
+				for _, l := range x.Lhs {
+					if id, ok := l.(*ast.Ident); ok && info.ObjectOf(id) == lineVar {
+						defs++
+					}
+				}
+			case *ast.CallExpr:
+				if wire.Canon(x.Fun) == "append" && x.Ellipsis.IsValid() && len(x.Args) == 2 {
+					if id, ok := ast.Unparen(x.Args[1]).(*ast.Ident); ok && info.ObjectOf(id) == lineVar {
+						appended = true
+					}
+				}
+			}
+			return true
+		})
+		if defs != 1 {
+			keeps, why = false, lineVar.Name()+" is reassigned or re-sliced after the read: the line break can be cut off"
+		} else if !appended {
+			keeps, why = false, lineVar.Name()+" is not appended whole to the token text"
+		}
+	}
+	// formatter side: do all sites that write a line comment add a break?
+	sites, adding := 0, 0
+	for _, ff := range funcsOfFiles(p, pkg, "format.go") {
+		ast.Inspect(ff.Body, func(n ast.Node) bool {
+			var body []ast.Stmt
+			switch x := n.(type) {
+			case *ast.CaseClause:
+				for _, e := range x.List {
+					if wire.Canon(e) == "tokenKindLineComment" {
+						body = x.Body
+					}
+				}
+			case *ast.IfStmt:
+				if be, ok := ast.Unparen(x.Cond).(*ast.BinaryExpr); ok && be.Op == token.EQL && wire.Canon(be.Y) == "tokenKindLineComment" {
+					body = x.Body.List
+				}
+			}
+			if body == nil {
+				return true
+			}
+			sites++
+			for _, st := range body {
+				if strings.Contains(srcOf(p, st), `'\n'`) || strings.Contains(srcOf(p, st), `"\n"`) {
+					adding++
+					break
+				}
+			}
+			return true
+		})
+	}
+	c.Count("formatter_line_comment_sites", sites)
+	c.Floor("formatter_line_comment_sites", 4)
+	c.Check("R6", "a line comment is written with its line break (kept by the tokenizer or added at every formatter site)", p.Pos(fd.Pos()), keeps || (sites > 0 && adding == sites),
+		fmt.Sprintf("%s, and only %d of the %d formatter sites that write a line comment add a break: the token that follows the comment is written on the comment's line and disappears into it", why, adding, sites))
+}
+
+
+// tokensVerbatim: R4d. The formatter re-emits tokens; the text of a token
+// (identifier, literal, comment — line comments carry `//[tag(…)]` field tags
+// that the parser only recognises in their exact spelling) must reach the
+// output as it was read. In format.go a token value or its .concrete may only
+// be appended, assigned or written; handing it to any other function is a
+// transformation of source text.
+func tokensVerbatim(c *core.Ctx, p *load.Prog, rule string) {
+	pkg := p.Bebop()
+	info := pkg.TypesInfo
+	isToken := func(e ast.Expr) bool {
+		if t := info.TypeOf(e); t != nil {
+			if n, ok := t.(*types.Named); ok && n.Obj().Name() == "token" && n.Obj().Pkg() == pkg.Types {
+				return true
+			}
+		}
+		if sel, ok := ast.Unparen(e).(*ast.SelectorExpr); ok && sel.Sel.Name == "concrete" {
+			return true
+		}
+		if se, ok := ast.Unparen(e).(*ast.SliceExpr); ok {
+			if sel, ok := ast.Unparen(se.X).(*ast.SelectorExpr); ok && sel.Sel.Name == "concrete" {
+				return true
+			}
+		}
+		return false
+	}
+	uses := 0
+	for _, fd := range funcsOfFiles(p, pkg, "format.go") {
+		// functions that receive a token are themselves transformations only if
+		// they are called with one; their bodies are scanned like any other
+		ast.Inspect(fd.Body, func(n ast.Node) bool {
+			switch x := n.(type) {
+			case *ast.CallExpr:
+				tokArg := false
+				for _, a := range x.Args {
+					if isToken(a) {
+						tokArg = true
+					}
+				}
+				if !tokArg {
+					return true
+				}
+				uses++
+				fn := wire.Canon(x.Fun)
+				okCall := fn == "append" || strings.HasSuffix(fn, ".SafeWrite") || strings.HasSuffix(fn, ".Write")
+				if !okCall {
+					c.Check(rule, fmt.Sprintf("%s passes token text only to append/Write (%s)", fd.Name.Name, fn), p.Pos(x.Pos()), false,
+						"the text of a token goes through "+fn+" before it is written: what is written is no longer what was read (a re-spaced `//[tag(…)]` comment stops being a field tag; a re-spelled literal changes value)")
+				}
+			case *ast.SliceExpr:
+				if sel, ok := ast.Unparen(x.X).(*ast.SelectorExpr); ok && sel.Sel.Name == "concrete" {
+					c.Check(rule, fd.Name.Name+" writes whole token texts (re-slice of .concrete)", p.Pos(x.Pos()), false,
+						"a part of a token's text is cut out before it is written")
+				}
+			}
+			return true
+		})
+	}
+	c.Check(rule, "token text reaches the output verbatim (scan complete)", "format.go", true, "")
+	c.Count("formatter_token_text_uses", uses)
+	c.Floor("formatter_token_text_uses", 30)
 }
